@@ -1,7 +1,7 @@
 (* C07 — inclusion on BDD-encoded tree automata is exact; unimplemented selections throw. Statements only. *)
 From Coq Require Import List NArith Bool.
 Import ListNotations.
-From V Require Import Sem Prod Incl TrimDefs TrimProofs Lang InclDefs InclProofs DispatchTable AntichainUp BuUpUnion.
+From V Require Import Sem Prod Incl TrimDefs TrimProofs Lang InclDefs InclProofs DispatchTable AntichainUp BuUpUnion DownIncl DownInclCacheDefs DownInclCacheProofs.
 
 (* the verdict every implemented selection must report is exact, and equals the explicit encoding's (same function) *)
 Theorem C07_exact : forall v A B, incl_model v A B = true <-> (forall t, accepts A t -> accepts B t).
@@ -32,6 +32,13 @@ Proof. exact up_antichain_exact. Qed.
 Theorem C07_bu_up_union_refuted : up_union d9_A d9_B = true /\ incl_dec d9_A d9_B = false /\ up_ac d9_A d9_B = false.
 Proof. exact bu_up_union_refuted. Qed.
 
+(* the recursive downward checker shared with the explicit encoding (DownwardInclusionFunctor): with the cache of positive answers scoped
+   to one expansion an answer is the truth; with one cache shared by all recursion levels it is not *)
+Theorem C07_down_cache_scoped_partial_correct : forall A B fuel b, downc_incl false A B fuel = Some b -> (b = true <-> forall t, accepts A t -> accepts B t).
+Proof. exact downc_scoped_partial_correct. Qed.
+Theorem C07_down_cache_shared_refuted : downc_incl true trapA trapB 30 = Some true /\ ~ lincl trapA trapB /\ downc_incl false trapA trapB 30 = Some false.
+Proof. exact downc_shared_refuted. Qed.
+
 Print Assumptions C07_exact.
 Print Assumptions C07_up_antichain_exact.
 Print Assumptions C07_bu_up_union_refuted.
@@ -42,3 +49,5 @@ Print Assumptions C07_dispatch_td.
 Print Assumptions C07_dispatch_bu.
 Print Assumptions C07_dispatch_expl.
 Print Assumptions C07_dispatch_range.
+Print Assumptions C07_down_cache_scoped_partial_correct.
+Print Assumptions C07_down_cache_shared_refuted.
